@@ -272,7 +272,9 @@ def check_property(prop: str, tier: str, only: Optional[str], jobs: int):
     else:
         obs = default_obligations(modname, tier)
     if only:
-        obs = [o for o in obs if o.name in only.split(",")]
+        import fnmatch
+        pats = only.split(",")
+        obs = [o for o in obs if any(fnmatch.fnmatchcase(o.name, p) for p in pats)]
     known = load_known(prop)
     for f in os.listdir(os.path.join(OUT, "replays")):
         if f.startswith(prop + "-"):
@@ -280,13 +282,29 @@ def check_property(prop: str, tier: str, only: Optional[str], jobs: int):
     counter = [0]
     results = {}
     twins = {}
+    # wall budget: obligations that have not STARTED when it is used up are reported as inconclusive ("not started"), never
+    # as holding.  The quick tier has no budget by default (everything runs); the thorough tier defaults to 90 minutes.
+    budget = float(os.environ.get("VERIF_BUDGET_S", "0") or 0) or (5400.0 if tier == "thorough" else 0.0)
+
+    def guarded_main(fn, ob):
+        if budget and time.time() - t0 > budget:
+            return {"name": ob.name, "kind": ob.kind, "note": ob.note, "covers": list(ob.covers), "timeout_s": ob.timeout,
+                    "runs": [], "known_findings": [], "verdict": "inconclusive",
+                    "detail": f"not started: the {tier} tier's wall budget of {budget:.0f} s was used up (VERIF_BUDGET_S)"}
+        return fn(prop, ob, known, counter)
+
+    def guarded_twin(ob):
+        if budget and time.time() - t0 > budget:
+            return {"reachable": None, "detail": "not started (wall budget)"}
+        return run_twin(ob)
+
     with cf.ThreadPoolExecutor(max_workers=jobs) as ex:
         futs = {}
         for ob in obs:
             fn = decide_crosshair if ob.kind == "crosshair" else decide_call
-            futs[ex.submit(fn, prop, ob, known, counter)] = ("main", ob)
+            futs[ex.submit(guarded_main, fn, ob)] = ("main", ob)
             if ob.kind == "crosshair" and ob.twin:
-                futs[ex.submit(run_twin, ob)] = ("twin", ob)
+                futs[ex.submit(guarded_twin, ob)] = ("twin", ob)
         for fut in cf.as_completed(futs):
             kind, ob = futs[fut]
             try:
